@@ -87,4 +87,31 @@ theorem C10_resumable_is_source :
     | false => rfl
     | true => rw [hs] at h5; cases h5
 
+/-- **A handshake whose CONNACK cannot be written does nothing after `getSession`.**  In the source the
+branch `if err = writeMessage(c, resp); err != nil` of `handleConnection` consists of `return nil, err`
+alone (regenerated fact `takeoverWriteFailReturnsOnly`; the deferred `c.Close()` closes the socket):
+nothing is deleted from the session store, nothing is unsubscribed, no `stop()` runs.  That is the
+model's `firstFail` - after the session lookup / update / creation of `first` it changes neither the
+connection table nor the subscription tries, and its only output is the close -, of which
+`C10_failed_handshake_refines` and `C10_failed_handshake_model_keeps_session` speak: the session a
+CleanSession=0 CONNECT would resume is still there, with its subscriptions, after the failed attempt. -/
+theorem C10_failed_write_is_source :
+    Mqtt.Generated.takeoverWriteFailReturnsOnly = true ∧
+    (∀ (b : B) c f a, (firstFail b c f a).1.conns = b.conns ∧ (firstFail b c f a).1.topics = b.topics ∧
+      (firstFail b c f a).2 = [.closed c]) := by
+  refine ⟨by decide, ?_⟩
+  intro b c f a
+  unfold firstFail
+  cases f with
+  | garbage => exact ⟨rfl, rfl, rfl⟩
+  | other t => exact ⟨rfl, rfl, rfl⟩
+  | connect req =>
+    simp only
+    split
+    · exact ⟨rfl, rfl, rfl⟩
+    · exact ⟨rfl, rfl, rfl⟩
+    · split
+      · exact ⟨rfl, rfl, rfl⟩
+      · split <;> exact ⟨rfl, rfl, rfl⟩
+
 end Mqtt.Properties.C10
